@@ -139,7 +139,9 @@ def run_batch(ctx, bases, stats):
             final = sorted((t["nid"], t["state"]) for t in pts[-1][1]["tasks"])
             stats["branches_taken"] += sum(1 for a, b in final if a.startswith("b") and b == "completed")
             key = sc["id"].rsplit("-v", 1)[0]
-            final_by_group.setdefault(key, []).append((sc, final))
+            # variants are compared on their outcome: a run whose answer budget ended with interrupts still open has none yet
+            if not any(b in ("interrupted", "running", "ready", "pending", "none") for a, b in final):
+                final_by_group.setdefault(key, []).append((sc, final))
             if any(a.startswith("b") and b == "completed" for a, b in final) and any(b == "skipped" for a, b in final):
                 ctx.nontrivial([sc["models"], sc["inputs"]])
         if not free:
